@@ -92,3 +92,27 @@ func init() {
 		os.Exit(0)
 	}
 }
+
+func init() {
+	if len(os.Args) > 1 && os.Args[1] == "lockorder" {
+		repo := "/repo"
+		if r := os.Getenv("DBG_REPO"); r != "" {
+			repo = r
+		}
+		p, err := LoadProg(repo, "", "", nil)
+		if err != nil {
+			fmt.Println(err)
+			os.Exit(1)
+		}
+		lo := buildLockOrder(p)
+		fmt.Println("acquisitions:", len(lo.Acqs))
+		g := lo.graph()
+		for a, m := range g {
+			for b, e := range m {
+				fmt.Printf("%s -> %s   [%s holds, at %s, taken in %s]\n", a, b, fnName(e.Holder), p.Pos(e.At.Pos()), fnName(e.Via))
+			}
+		}
+		fmt.Println("SCCs:", lo.sccs())
+		os.Exit(0)
+	}
+}
